@@ -47,7 +47,11 @@ def run(ctx):
                         # a new-thread / exec data record, a terminate record, an undecoded trace-class record - which land
                         # in the string's window: the text is made of the string's own records only)
                         if kind == 'lkp':
-                            stream += [w.known(rnd.choice([0, 3]), 1)]
+                            # (also records that NAME a thread - the lookup's own or another: a terminate record, a sampler's
+                            # thread info, a new-thread announcement - they say nothing about the lookup in flight)
+                            stream += [rnd.choice([lambda: w.known(rnd.choice([0, 3]), 1), lambda: w.known(rnd.choice([0, 3]), 1),
+                                                   lambda: w.term(1, 1), lambda: w.term(1, 2), lambda: w.thd(1, 9, 1), lambda: w.ntd(1, 1, 7),
+                                                   lambda: w.tpid(1, 5)])()]
                         else:
                             r_ = rnd.random()
                             stream += g.ord_single(1) if r_ < 0.4 else [rnd.choice([
@@ -84,11 +88,15 @@ def run(ctx):
                 for j in range(nl):
                     if rnd.random() < 0.5:
                         stream += g.single(1)
+                    if rnd.random() < 0.25:
+                        stream += [rnd.choice([lambda: w.term(1, 1), lambda: w.term(1, 2), lambda: w.thd(1, 9, 1), lambda: w.ntd(1, 1, 7)])()]
                     if rnd.random() < 0.3:
                         stream += w.lookup(2, g.text())      # another thread's lookup must not leak in
                     stream += w.lookup(1, g.text(rnd.choice(lens)))
                 if rnd.random() < 0.5:
                     stream += g.single(1)
+                if rnd.random() < 0.25:
+                    stream += [rnd.choice([lambda: w.term(1, 1), lambda: w.term(1, 2), lambda: w.exd(1, 9)])()]
                 stream.append(w.sys(name, 2, 1))
                 cases.append(('%s_%d_%d' % (name, nl, rep), w, stream))
     # two lookups whose FIRST records are byte-identical (same vnode id, same first 24 path bytes, same coarse timestamp):
